@@ -148,6 +148,9 @@ struct default_color_converter_impl<hsv_t,rgb_t>
 
          frac = h - i;
 
+         // hue is periodic: hue 1 (sector 6) denotes the same colour as hue 0
+         i %= 6;
+
          p = get_color( src, value_t() )
            * ( 1.f - get_color( src, saturation_t() ));
 
